@@ -51,7 +51,64 @@ def base_type(s):
     return strip_generics(s)
 
 
+class _AliasDict(dict):
+    """dict keyed by a type path (or a tuple starting with one) that also answers for the path a type had before it was
+    moved into another (sub-)module: `qvector::QVectorBuilder` finds `qvector::builder::QVectorBuilder`."""
+
+    def __init__(self, *a, canon=None, default_factory=None, **kw):
+        super().__init__(*a, **kw)
+        self._canon = canon
+        self._df = default_factory
+
+    def _k(self, key):
+        if dict.__contains__(self, key) or self._canon is None:
+            return key
+        if isinstance(key, tuple) and key and isinstance(key[0], str):
+            c = self._canon(key[0])
+            return (c,) + key[1:] if c else key
+        if isinstance(key, str):
+            return self._canon(key) or key
+        return key
+
+    def get(self, key, default=None):
+        k = self._k(key)
+        return dict.get(self, k, default)
+
+    def __contains__(self, key):
+        return dict.__contains__(self, self._k(key))
+
+    def __getitem__(self, key):
+        k = self._k(key)
+        if not dict.__contains__(self, k) and self._df is not None:
+            v = self._df()
+            dict.__setitem__(self, k, v)
+            return v
+        return dict.__getitem__(self, k)
+
+
 class Facts:
+    def canon_type(self, base):
+        """Current path of the type known on the reviewed tree as `base` (same name, possibly another module)."""
+        if base in self._adt_paths:
+            return base
+        last = base.split('::')[-1]
+        cands = self._adt_short.get(last, [])
+        if len(cands) == 1:
+            return cands[0]
+        if len(cands) > 1:
+            # several types share the name (bitvector::DataLine / qvector::DataLine): longest common module prefix wins
+            def common(a, b):
+                n = 0
+                for x, y in zip(a.split('::'), b.split('::')):
+                    if x != y:
+                        break
+                    n += 1
+                return n
+            best = sorted(cands, key=lambda c: -common(c, base))
+            if common(best[0], base) > common(best[1], base):
+                return best[0]
+        return None
+
     def __init__(self, path, config='default'):
         self.path = path
         self.config = config
@@ -59,15 +116,19 @@ class Facts:
             d = json.load(fh)
         self.raw = d
         self.fns = {f['path']: f for f in d['fns']}
-        self.adts = {a['path']: a for a in d['adts']}
+        self._adt_paths = {a['path'] for a in d['adts']}
+        self._adt_short = collections.defaultdict(list)
+        for a in d['adts']:
+            self._adt_short[a['path'].split('::')[-1]].append(a['path'])
+        self.adts = _AliasDict({a['path']: a for a in d['adts']}, canon=self.canon_type)
         self.impls = d['impls']
         self.consts = d['consts']
-        self.layouts = d['layouts']
+        self.layouts = _AliasDict(d['layouts'], canon=self.canon_type)
         self.statics = d['statics']
         # index for trait-method resolution: (trait, name, base self) -> fn
         self.by_trait = {}
         self.by_trait_name = collections.defaultdict(list)
-        self.by_base_name = collections.defaultdict(list)
+        self.by_base_name = _AliasDict(canon=self.canon_type, default_factory=list)
         for f in d['fns']:
             if f['kind'] == 'Closure':
                 continue
@@ -133,7 +194,7 @@ class Facts:
             yield f
 
     def fn(self, f, spec=None):
-        key = (f['path'], tuple(sorted((spec or {}).items())))
+        key = (f['path'], tuple(sorted((spec or {}).items())), f.get('_inlined') is not None)
         F = self._fn_cache.get(key)
         if F is None:
             F = Fn(self, f, spec)
@@ -177,7 +238,7 @@ class Facts:
 
     def callees_of(self, f):
         """Resolved crate-local callees (class-hierarchy approximation) plus closures created."""
-        key = f['path']
+        key = (f['path'], f.get('_inlined') is not None)
         c = self._callee_cache.get(key)
         if c is None:
             c = []
@@ -356,6 +417,7 @@ class Fn:
                 self.pred[s].append(a)
         self._dom = None
         self._dbg = None
+        self._fw = None
         self.reach = None
         self._term_cache = {}
 
@@ -489,9 +551,119 @@ class Fn:
                 yield bi, t
 
     # ---------- terms
+    # ---------- locals holding a struct built in this body (builder objects, possibly behind `&mut self` of an
+    # inlined method): a field that is never written after construction reads as the constructor's operand
+    def struct_root(self, l, depth=0):
+        """local l is (a reference to / a moved copy of) local L -> L"""
+        if depth > 8 or 1 <= l <= self.argc:
+            return l
+        self.dom()
+        ds = [d for d in self.defs.get(l, []) if d[0] in self.reach]
+        if len(ds) != 1 or ds[0][1] != 'assign':
+            return l
+        rv = ds[0][2]
+        if rv['k'] == 'ref' and all(e == '*' for e in rv['p']['proj']):
+            return self.struct_root(rv['p']['l'], depth + 1)
+        if rv['k'] == 'use' and 'p' in rv['a'] and all(e == '*' for e in rv['a']['p']['proj']) \
+                and self.locals[l].lstrip('&').replace('mut ', '') == self.locals[rv['a']['p']['l']].lstrip('&').replace('mut ', ''):
+            return self.struct_root(rv['a']['p']['l'], depth + 1)
+        return l
+
+    def _agg_of(self, L, depth=0):
+        ds = [d for d in self.defs.get(L, []) if d[0] in self.reach]
+        if len(ds) != 1 or depth > 6:
+            return None
+        if ds[0][1] != 'assign':
+            return None
+        rv = ds[0][2]
+        if rv['k'] == 'agg' and 'adt' in rv['kind']:
+            return rv
+        if rv['k'] == 'use' and 'p' in rv['a'] and not rv['a']['p']['proj']:
+            return self._agg_of(rv['a']['p']['l'], depth + 1)
+        return None
+
+    def _field_writes(self):
+        """{(root local, field index)} possibly written after construction, and roots whose `&mut` escapes."""
+        if self._fw is None:
+            w, esc = set(), set()
+
+            def first_field(p):
+                for e in p['proj']:
+                    if e == '*':
+                        continue
+                    if isinstance(e, dict) and 'f' in e:
+                        return e['i']
+                    return None
+                return None
+            self.dom()
+            for bi, b in enumerate(self.blocks):
+                if bi not in self.reach:
+                    continue
+                for s in b['s']:
+                    lhs = s.get('lhs')
+                    if lhs and lhs['proj']:
+                        r = self.struct_root(lhs['l'])
+                        fi = first_field(lhs)
+                        w.add((r, fi))
+                    rv = s.get('rv')
+                    if rv and rv['k'] in ('ref', 'rawptr') and (rv.get('mut') or rv['k'] == 'rawptr'):
+                        pl = rv['p']
+                        fi = first_field(pl)
+                        if fi is not None:
+                            w.add((self.struct_root(pl['l']), fi))
+                    if rv and rv['k'] == 'agg':
+                        for o in rv['ops']:
+                            if 'p' in o and self.locals[o['p']['l']].startswith('&mut'):
+                                esc.add(self.struct_root(o['p']['l']))
+                t = b['t']
+                if t['k'] == 'call':
+                    for a in t['args']:
+                        if 'p' in a and not a['p']['proj'] and self.locals[a['p']['l']].startswith('&mut'):
+                            esc.add(self.struct_root(a['p']['l']))
+                    if t['dest']['proj']:
+                        w.add((self.struct_root(t['dest']['l']), first_field(t['dest'])))
+            self._fw = (w, esc)
+        return self._fw
+
+    def const_field(self, l, fi):
+        """operand that field #fi of the struct behind local l was constructed with, when nothing writes it later"""
+        L = self.struct_root(l)
+        if 1 <= L <= self.argc:
+            return None
+        agg = self._agg_of(L)
+        if agg is None or fi >= len(agg['ops']):
+            return None
+        w, esc = self._field_writes()
+        roots = {L}
+        # the aggregate may have been built in a temporary and moved
+        cur = L
+        for _ in range(6):
+            ds = [d for d in self.defs.get(cur, []) if d[0] in self.reach]
+            if len(ds) == 1 and ds[0][1] == 'assign' and ds[0][2]['k'] == 'use' and 'p' in ds[0][2]['a'] and not ds[0][2]['a']['p']['proj']:
+                cur = ds[0][2]['a']['p']['l']
+                roots.add(cur)
+            else:
+                break
+        for r in roots:
+            if r in esc or (r, fi) in w or (r, None) in w:
+                return None
+        return agg['ops'][fi]
+
     def place_term(self, p, depth=0, at=None):
+        if p['proj'] and depth < 12:
+            k = 0
+            while k < len(p['proj']) and p['proj'][k] == '*':
+                k += 1
+            if k < len(p['proj']) and isinstance(p['proj'][k], dict) and 'f' in p['proj'][k]:
+                o = self.const_field(p['l'], p['proj'][k]['i'])
+                if o is not None:
+                    base = self.operand_term(o, depth + 1, at)
+                    return self._project(base, p['proj'][k + 1:], depth, at)
         base = self.local_term(p['l'], depth, at)
-        for e in p['proj']:
+        return self._project(base, p['proj'], depth, at)
+
+    def _project(self, base, proj, depth=0, at=None):
+        for e in proj:
             if e == '*':
                 if isinstance(base, tuple) and base[0] == 'ref':
                     base = base[1]
@@ -634,8 +806,14 @@ def inline_call(facts, fn, args, spec=None):
         summ = summary(facts, cands[0], spec)
         if summ is not None:
             return subst(summ, cands[0], args)
-        if not tr and (cands[0]['locals'][0] == 'bool' or cands[0]['locals'][0].startswith('std::option::Option')) and not cands[0]['unsafe']:
-            facts.call_targets[short_callee(fn)] = cands[0]
+        if (cands[0]['locals'][0] == 'bool' or cands[0]['locals'][0].startswith('std::option::Option')) and not cands[0]['unsafe']:
+            k = short_callee(fn)
+            if not tr:
+                facts.call_targets[k] = cands[0]
+            elif facts.by_trait.get((tr, name, base_type(fn['self_ty']))) is not None:
+                # trait method on a concrete receiver type: usable when the short name denotes one implementation only
+                prev = facts.call_targets.get(k, cands[0])
+                facts.call_targets[k] = cands[0] if (prev is not None and prev['path'] == cands[0]['path']) else None
     return ('call', short_callee(fn), tuple(strip_ref(a) for a in args))
 
 
@@ -917,6 +1095,7 @@ def path_atoms(F, bb, include_debug=False, _expand=True, _depth=0):
                     out.append(('isnot', dterm, vals))
     if _expand:
         out = expand_predicates(F.facts, out, 0, F.spec)
+        out = [map_atom(a, lambda t_: resolve_payloads(F.facts, t_, F.spec)) if a[0] in ('<', '<=', '==', '!=') else a for a in out]
     out = [a for a in out if not (a[0] == '<=' and a[1] == ('const', 0))]
     return out
 
@@ -953,6 +1132,164 @@ def pred_summary(facts, f, spec=None):
     return facts._pred_cache[key]
 
 
+def _truth(t):
+    return flatten_conj([one_atom(term_atoms(t))])
+
+
+def closure_apply(facts, clo, args, spec=None):
+    """Return-value term of calling the closure aggregate `clo` with `args`, captured variables substituted."""
+    if not (isinstance(clo, tuple) and clo[:1] == ('agg',) and isinstance(clo[1], str) and clo[1].startswith('closure:')):
+        return None
+    cf = facts.fns.get(clo[1][len('closure:'):])
+    if cf is None:
+        return None
+    CF = facts.fn(cf, {k: v for k, v in (spec or {}).items()})
+    ret = norm(CF.local_term(0))
+    ret = subst_upvars(ret, list(clo[2]))
+    ret = subst(ret, cf, [('closure_env',)] + list(args))
+    return norm(ret)
+
+
+def opt_view(facts, t, spec=None, depth=0):
+    """Option-valued term -> list of (atoms, payload): it is Some(payload) exactly when one of the conjunctions holds.
+    Covers Some/None, bool::then/then_some, Option::map/filter/and_then, checked_sub and crate helpers; None = unknown."""
+    if depth > 5 or not isinstance(t, tuple) or not t:
+        return None
+    t = norm(t)
+    if t[0] == 'agg' and isinstance(t[1], str) and t[1].startswith('adt:std::option::Option:'):
+        return [([], t[2][0])] if t[1].endswith(':1') and t[2] else []
+    if t[0] != 'call':
+        return None
+    name = t[1].split('::')[-1]
+    args = t[2]
+    is_bool = 'bool' in t[1].split('::')
+    is_opt = 'Option' in t[1]
+    if is_bool and name == 'then_some' and len(args) == 2:
+        return [(_truth(args[0]), args[1])]
+    if is_bool and name == 'then' and len(args) == 2:
+        v = closure_apply(facts, args[1], [], spec)
+        return [(_truth(args[0]), v if v is not None else ('unknown', 'then', 0))]
+    if is_opt and name in ('as_ref', 'as_mut', 'copied', 'cloned', 'as_deref', 'as_deref_mut') and args:
+        return opt_view(facts, args[0], spec, depth + 1)
+    if is_opt and name == 'map' and len(args) == 2:
+        inner = opt_view(facts, args[0], spec, depth + 1)
+        if inner is None:
+            return None
+        out = []
+        for a, p in inner:
+            v = closure_apply(facts, args[1], [p], spec)
+            if v is None and isinstance(args[1], tuple) and args[1][:1] == ('fn',):
+                v = ('call', args[1][1], (p,))
+            out.append((a, v if v is not None else ('unknown', 'map', 0)))
+        return out
+    if is_opt and name == 'filter' and len(args) == 2:
+        inner = opt_view(facts, args[0], spec, depth + 1)
+        if inner is None:
+            return None
+        out = []
+        for a, p in inner:
+            c = closure_apply(facts, args[1], [p], spec)
+            if c is None or has_unknown(c):
+                return None
+            out.append((a + _truth(c), p))
+        return out
+    if is_opt and name == 'and_then' and len(args) == 2:
+        inner = opt_view(facts, args[0], spec, depth + 1)
+        if inner is None:
+            return None
+        out = []
+        for a, p in inner:
+            r = closure_apply(facts, args[1], [p], spec)
+            v2 = opt_view(facts, r, spec, depth + 1) if r is not None else None
+            if v2 is None:
+                return None
+            for a2, p2 in v2:
+                out.append((a + a2, p2))
+        return out
+    if name == 'checked_sub' and len(args) == 2:
+        return [([canon_atom('<=', args[1], args[0])], norm(('bin', 'Sub', args[0], args[1])))]
+    tgt = facts.call_targets.get(t[1])
+    if tgt is not None and tgt['locals'][0].startswith('std::option::Option'):
+        cases = opt_cases(facts, tgt, spec, depth + 1)
+        if cases is None:
+            return None
+        out = []
+        for a, p in cases:
+            out.append(([map_atom(x, lambda t_: subst(t_, tgt, args)) for x in a], norm(subst(p, tgt, args))))
+        return out
+    return None
+
+
+def opt_cases(facts, g, spec=None, depth=0):
+    """Every way a crate-local Option-returning helper returns Some: list of (atoms, payload) over its parameters."""
+    fspec = {k: v for k, v in (spec or {}).items() if k in facts.const_params(g)}
+    key = ('optc', g['path'], tuple(sorted(fspec.items())))
+    if key in facts._pred_cache:
+        return facts._pred_cache[key]
+    facts._pred_cache[key] = None
+    if depth > 4:
+        return None
+    G = facts.fn(g, fspec)
+    G.dom()
+    out = []
+
+    def add_view(bi, term):
+        v = opt_view(facts, term, spec, depth + 1)
+        if v is None:
+            return False
+        pa = list(path_atoms(G, bi))
+        for a, p in v:
+            out.append((pa + a, p))
+        return True
+    for bi, b in enumerate(G.blocks):
+        if bi not in G.reach:
+            continue
+        for st in b['s']:
+            if st['lhs']['l'] == 0 and not st['lhs']['proj']:
+                rv = st['rv']
+                if rv['k'] == 'agg' and rv['kind'].get('adt') == 'std::option::Option':
+                    if rv['kind']['vi'] == 1:
+                        out.append((list(path_atoms(G, bi)), norm(G.operand_term(rv['ops'][0]))))
+                elif rv['k'] == 'use' and 'p' in rv['a'] and not rv['a']['p']['proj']:
+                    if not add_view(bi, G.local_term(rv['a']['p']['l'])):
+                        return None
+                else:
+                    return None
+        t = b['t']
+        if t['k'] == 'call' and t['dest']['l'] == 0 and not t['dest']['proj'] and 'fn' in t['f']:
+            if t['f']['fn']['trait'] == 'std::ops::FromResidual':
+                continue
+            if not add_view(bi, G.call_term(t)):
+                return None
+    for a, p in out:
+        if any(has_unknown(x[1]) or (isinstance(x[2], tuple) and has_unknown(x[2])) for x in a if x[0] not in ('or', 'and')):
+            return None
+    facts._pred_cache[key] = out
+    return out
+
+
+def resolve_payloads(facts, t, spec=None, depth=0):
+    """Replace `x?`, `x.unwrap()` and `if let Some(v) = x` payloads by the value itself when the Option algebra knows the
+    single way x is Some (`self.occs(s)?` reads as the term `occs` wraps)."""
+    if not isinstance(t, tuple) or not t or depth > 6:
+        return t
+    inner = None
+    if t[0] == 'call' and t[1].split('::')[-1] in ('unwrap', 'expect', 'unwrap_unchecked') and len(t[2]) >= 1:
+        inner = t[2][0]
+    elif t[0] == 'field' and t[2] == '0' and isinstance(t[1], tuple) and t[1] and t[1][0] == 'variant':
+        x = t[1][1]
+        if t[1][2] == 'Continue' and isinstance(x, tuple) and x and x[0] == 'call' and x[1].split('::')[-1] == 'branch' and x[2]:
+            inner = x[2][0]
+        elif t[1][2] == 'Some':
+            inner = x
+    if inner is not None:
+        inner = resolve_payloads(facts, inner, spec, depth + 1)
+        v = opt_view(facts, inner, spec, depth + 1)
+        if v is not None and len(v) == 1 and not has_unknown(v[0][1]):
+            return resolve_payloads(facts, v[0][1], spec, depth + 1)
+    return tuple(resolve_payloads(facts, x, spec, depth + 1) if isinstance(x, tuple) else x for x in t)
+
+
 def expand_predicates(facts, atoms, depth=0, spec=None):
     out = []
     for a in atoms:
@@ -973,6 +1310,15 @@ def expand_predicates(facts, atoms, depth=0, spec=None):
                         out.extend(expand_predicates(facts, sub, depth + 1, spec))
                         out.append(a)
                         continue
+                cases = opt_view(facts, inner, spec, depth + 1)
+                if cases is not None and len(cases) == 1:
+                    out.extend(expand_predicates(facts, cases[0][0], depth + 1, spec))
+                    out.append(a)
+                    continue
+                if cases is not None and len(cases) > 1:
+                    out.append(('or', tuple(('and', tuple(c), None) for c, _ in cases), None))
+                    out.append(a)
+                    continue
         if a[0] == 'true' and isinstance(a[1], tuple) and a[1] and a[1][0] == 'call' and depth < 2:
             tgt = facts.call_targets.get(a[1][1])
             if tgt is not None:
@@ -1224,3 +1570,252 @@ def inlined_sites(facts, f, spec=None, depth=2, _pre=None, _map=None, _seen=None
                 sub = (lambda g_, args_: (lambda tm: norm(subst(tm, g_, args_))))(g, args)
                 for item in inlined_sites(facts, g, spec, depth - 1, atoms, sub, seen | {g['path']}):
                     yield item
+
+
+# ---------------------------------------------------------------- MIR-level inlining of private helpers
+def _remap(x, loff, boff, csub):
+    """Deep copy of a MIR fact fragment with locals shifted by loff, block targets by boff and the callee's
+    const-generic names substituted."""
+    if isinstance(x, list):
+        return [_remap(y, loff, boff, csub) for y in x]
+    if not isinstance(x, dict):
+        return x
+    if 'l' in x and 'proj' in x and len(x) == 2:
+        return {'l': x['l'] + loff,
+                'proj': [({'idx': e['idx'] + loff} if isinstance(e, dict) and 'idx' in e else e) for e in x['proj']]}
+    if 'c' in x and x.get('val') is None and x['c'] in csub:
+        r = csub[x['c']]
+        y = dict(x)
+        if r in ('true', 'false'):
+            y['val'] = '1' if r == 'true' else '0'
+            y['ty'] = 'bool'
+        else:
+            y['c'] = r
+        return y
+    out = {}
+    for k, v in x.items():
+        if k == 'fn':
+            out[k] = v
+        elif k in ('to', 'else') and isinstance(v, int):
+            out[k] = v + boff if v >= 0 else v
+        elif k == 'arms':
+            out[k] = [[a[0], a[1] + boff] for a in v]
+        else:
+            out[k] = _remap(v, loff, boff, csub)
+    return out
+
+
+def default_inline_policy(g):
+    return (not g['exported']) and g['kind'] != 'Closure' and not g['derived'] and len(g['blocks']) <= 400
+
+
+def inline_body(facts, f, policy=None, max_depth=4, max_blocks=4000):
+    """A copy of f's MIR in which every call of a crate-private helper (resolved to exactly one body, not recursive)
+    is replaced by the helper's blocks: parameters become ordinary locals assigned from the arguments, `return`
+    becomes an assignment of the destination and a jump to the continuation.  Rules that read one anchor function
+    keep seeing the same statements when part of it is extracted into helpers or builder structs."""
+    policy = policy or default_inline_policy
+    blocks = [dict(b, s=list(b['s']), origin=f['path']) for b in f['blocks']]
+    locs = list(f['locals'])
+    names = {int(k): v for k, v in f['names'].items()}
+    depth = {i: 0 for i in range(len(blocks))}
+    stack = {i: (f['path'],) for i in range(len(blocks))}
+    inlined = []
+    bi = 0
+    while bi < len(blocks):
+        b = blocks[bi]
+        t = b['t']
+        if t['k'] == 'call' and 'fn' in t['f'] and depth[bi] < max_depth and len(blocks) < max_blocks:
+            fn = t['f']['fn']
+            cands = facts.resolve(fn) if (fn.get('local') or fn.get('crate') == 'qwt') else []
+            if len(cands) == 1 and policy(cands[0]) and cands[0]['path'] not in stack[bi] and cands[0]['blocks'] \
+                    and cands[0]['argc'] == len(t['args']):
+                g = cands[0]
+                loff, boff = len(locs), len(blocks)
+                csub = {}
+                gens = g.get('generics', [])
+                gargs = fn.get('gargs', [])
+                if len(gens) == len(gargs):
+                    for gp, ga in zip(gens, gargs):
+                        if gp['kind'] == 'const':
+                            csub[gp['name']] = ga
+                locs.extend(g['locals'])
+                for k, v in g['names'].items():
+                    names[int(k) + loff] = v
+                for gi, gb in enumerate(g['blocks']):
+                    nb = _remap(gb, loff, boff, csub)
+                    nb['origin'] = g['path']
+                    if nb['t']['k'] == 'return':
+                        if t['to'] >= 0:
+                            nb['s'] = nb['s'] + [{'lhs': t['dest'], 'rv': {'k': 'use', 'a': {'p': {'l': loff, 'proj': []}}},
+                                                  'line': t.get('line', ''), 'macros': [], 'ret_of': g['path']}]
+                            nb['t'] = {'k': 'goto', 'to': t['to']}
+                        else:
+                            nb['t'] = {'k': 'unreachable'}
+                    blocks.append(nb)
+                    depth[boff + gi] = depth[bi] + 1
+                    stack[boff + gi] = stack[bi] + (g['path'],)
+                for k, a in enumerate(t['args']):
+                    b['s'].append({'lhs': {'l': loff + 1 + k, 'proj': []}, 'rv': {'k': 'use', 'a': a},
+                                   'line': t.get('line', ''), 'macros': [], 'arg_of': g['path']})
+                b['t'] = {'k': 'goto', 'to': boff, 'inlined_call': fn, 'line': t.get('line', '')}
+                inlined.append(g['path'])
+        bi += 1
+    out = dict(f)
+    out['blocks'] = blocks
+    out['locals'] = locs
+    out['names'] = {str(k): v for k, v in names.items()}
+    out['_inlined'] = sorted(set(inlined))
+    return out
+
+
+def _facts_inlined(self, f, policy=None):
+    if f.get('_inlined') is not None:
+        return f
+    key = (f['path'], getattr(policy, '__name__', '') if policy else '')
+    c = self._inl_cache.get(key) if hasattr(self, '_inl_cache') else None
+    if not hasattr(self, '_inl_cache'):
+        self._inl_cache = {}
+    if c is None:
+        c = inline_body(self, f, policy)
+        self._inl_cache[key] = c
+    return c
+
+
+Facts.inlined = _facts_inlined
+
+
+# ---------------------------------------------------------------- local dataflow (name-free anchors)
+def _operand_locals(o):
+    out = []
+    if o and 'p' in o:
+        out.append(o['p']['l'])
+        for e in o['p']['proj']:
+            if isinstance(e, dict) and 'idx' in e:
+                out.append(e['idx'])
+    return out
+
+
+def rv_operands(rv):
+    ops = []
+    for k in ('a', 'b'):
+        if isinstance(rv.get(k), dict):
+            ops.append(rv[k])
+    ops.extend(rv.get('ops', []))
+    if 'p' in rv:
+        ops.append({'p': rv['p']})
+    return ops
+
+
+def place_has_field(p, field):
+    return any(isinstance(e, dict) and e.get('f') == field for e in p['proj'])
+
+
+VALUE_PRESERVING_CALLS = ('index', 'index_mut', 'get_unchecked', 'get_unchecked_mut', 'deref', 'deref_mut', 'as_', 'clone',
+                          'unwrap', 'unwrap_unchecked', 'get', 'get_mut', 'as_ref', 'as_mut', 'into', 'from', 'iter', 'next',
+                          'into_iter', 'copied', 'cloned', 'as_slice', 'as_ptr', 'add', 'read', 'borrow', 'expect', 'branch',
+                          'first', 'last', 'to_owned', 'as_mut_slice', 'iter_mut', 'zip', 'enumerate', 'rev', 'skip', 'take',
+                          'step_by', 'by_ref', 'peekable', 'chunks', 'chunks_mut', 'chunks_exact', 'split_at', 'split_at_mut',
+                          'first_mut', 'last_mut', 'as_mut_ptr', 'offset', 'from_residual', 'into_boxed_slice', 'unwrap_or_default')
+ANY_ARG_CALLS = ('zip', 'chain')
+
+
+def forward_taint(F, seed_place, through_ops=('Shr', 'BitAnd'), seed_locals=()):
+    """Locals whose value is extracted from a seed place: copies, casts, references, indexing / unwrapping calls and the
+    given bit-extraction operators propagate; other arithmetic ends the flow."""
+    F.dom()
+    tainted = set(seed_locals)
+
+    def op_t(o):
+        if not o or 'p' not in o:
+            return False
+        return o['p']['l'] in tainted or seed_place(o['p'])
+    changed = True
+    while changed:
+        changed = False
+        for bi, b in enumerate(F.blocks):
+            if bi not in F.reach:
+                continue
+            for s in b['s']:
+                rv = s.get('rv')
+                if not rv:
+                    continue
+                l = s['lhs']['l']
+                if l in tainted:
+                    continue
+                k = rv['k']
+                hit = False
+                if k in ('use', 'cast', 'un'):
+                    hit = op_t(rv['a'])
+                elif k in ('ref', 'rawptr', 'discr'):
+                    hit = op_t({'p': rv['p']})
+                elif k == 'bin':
+                    op = rv['op'].replace('Unchecked', '').replace('WithOverflow', '')
+                    if op in through_ops:
+                        hit = op_t(rv['a'])
+                elif k == 'agg':
+                    hit = any(op_t(o) for o in rv['ops']) and 'closure' not in rv['kind']
+                if hit:
+                    tainted.add(l)
+                    changed = True
+            t = b['t']
+            if t['k'] == 'call' and 'fn' in t['f'] and t['dest']['l'] not in tainted:
+                nm = t['f']['fn']['name']
+                if nm in VALUE_PRESERVING_CALLS and t['args'] and (op_t(t['args'][0]) or (nm in ANY_ARG_CALLS and any(op_t(a) for a in t['args']))):
+                    tainted.add(t['dest']['l'])
+                    changed = True
+    return tainted
+
+
+CONTAINER_WRITES = ('push', 'extend', 'insert', 'push_back', 'extend_from_slice', 'resize', 'fill', 'write', 'push_front',
+                    'append')
+
+
+def backward_slice(F, start_locals, through_calls=True):
+    """Locals that the given locals are computed from (data dependences only), following moves, arithmetic, calls and the
+    contents written into containers / struct locals that are in the slice."""
+    F.dom()
+    S = set()
+    work = list(start_locals)
+    writes = collections.defaultdict(list)   # root local -> operands written into it
+    for bi, b in enumerate(F.blocks):
+        if bi not in F.reach:
+            continue
+        for s in b['s']:
+            lhs = s.get('lhs')
+            if lhs and lhs['proj']:
+                writes[F.struct_root(lhs['l'])].extend(rv_operands(s['rv']))
+        t = b['t']
+        if t['k'] == 'call' and 'fn' in t['f'] and t['f']['fn']['name'] in CONTAINER_WRITES and t['args'] and 'p' in t['args'][0]:
+            a0 = t['args'][0]['p']
+            root = F.struct_root(a0['l'])
+            # `&mut v[k]` / `&mut s.f` temporaries: go to the local the reference was taken from
+            ds = [d for d in F.defs.get(a0['l'], []) if d[0] in F.reach]
+            if len(ds) == 1 and ds[0][1] == 'assign' and ds[0][2]['k'] == 'ref':
+                root = F.struct_root(ds[0][2]['p']['l'])
+            elif len(ds) == 1 and ds[0][1] == 'call' and ds[0][2]['args'] and 'p' in ds[0][2]['args'][0]:
+                root = F.struct_root(ds[0][2]['args'][0]['p']['l'])
+                ds2 = [d for d in F.defs.get(root, []) if d[0] in F.reach]
+                if len(ds2) == 1 and ds2[0][1] == 'assign' and ds2[0][2]['k'] == 'ref':
+                    root = F.struct_root(ds2[0][2]['p']['l'])
+            writes[root].extend(t['args'][1:])
+    while work:
+        l = work.pop()
+        if l in S:
+            continue
+        S.add(l)
+        r = F.struct_root(l)
+        if r != l:
+            work.append(r)
+        for d in F.defs.get(l, []):
+            if d[0] not in F.reach:
+                continue
+            if d[1] == 'assign':
+                for o in rv_operands(d[2]):
+                    work.extend(_operand_locals(o))
+            elif through_calls:
+                for a in d[2]['args']:
+                    work.extend(_operand_locals(a))
+        for o in writes.get(l, []):
+            work.extend(_operand_locals(o))
+    return S
